@@ -130,6 +130,7 @@ func (e *specEnv) callExpr(n *ECall, hint types.Type) sv {
 			sfail("contains expects a map")
 		}
 		k := e.term(e.eval(n.Args[1], mt.Key()), mt.Key())
+		e.noteKey(mt.Key(), k)
 		return sv{Val: Val{t: fmt.Sprintf("(select (select %s %s) %s)", e.st.get(u, u.keyMapDom(mt)), x.t, k), typ: tBool}}
 	case "f64frombits", "f32frombits":
 		argn(1)
